@@ -4,7 +4,7 @@ made by the repository's CMake from the current tree) on the real kernel."""
 import subprocess, concurrent.futures as cf
 from common import *
 
-ENTRIES = {"cv": "cv", "cvg": "cv", "mu": "pred", "notenew": "obj", "notewait": "obj", "counterwait": "obj", "waitn": "obj"}
+ENTRIES = {"cv": "cv", "cvg": "cv", "mu": "pred", "cvn": "cv", "mun": "pred", "notenew": "obj", "notewait": "obj", "counterwait": "obj", "waitn": "obj"}
 CLASSES = ["zero", "neg_ns", "neg_s", "neg_big", "past", "future", "max1", "none"]
 
 
